@@ -369,10 +369,116 @@ func tableLoopCoverage(c *Ctx, e *BE, fn *ssa.Function, g *ssa.Call, N Lin) (str
 	if hb.Y == q.Low {
 		size = hb.X
 	}
+	// The grown size and the entry size may be parameters of an unexported helper (the caller computes
+	// len(table)*S and selects S): the shape is then checked at every call site, parameters standing for arguments.
+	_, nIsPar := g.Call.Args[0].(*ssa.Parameter)
+	_, sIsPar := size.(*ssa.Parameter)
+	if nIsPar || sIsPar {
+		sites, closed := staticCallSites(c, fn)
+		if !closed || len(sites) == 0 {
+			return "the grown size / entry size are parameters of a function whose callers cannot be enumerated", true
+		}
+		for _, site := range sites {
+			if why := tableLoopCoverageAt(c, e, fn, g, q, size, site); why != "" {
+				return why + " (call at " + c.pos(site.Pos()) + ")", true
+			}
+		}
+		return "", true
+	}
+	return tableLoopCoverageAt(c, e, fn, g, q, size, nil), true
+}
+
+// staticCallSites: the calls of fn in its package; closed is false when fn is exported or used as a value.
+func staticCallSites(c *Ctx, fn *ssa.Function) ([]*ssa.Call, bool) {
+	if fn.Pkg == nil || ast.IsExported(fn.Name()) {
+		return nil, false
+	}
+	var out []*ssa.Call
+	closed := true
+	for _, m := range fn.Pkg.Members {
+		var fns []*ssa.Function
+		switch x := m.(type) {
+		case *ssa.Function:
+			fns = append(fns, x)
+		case *ssa.Type:
+			for _, t := range []types.Type{x.Type(), types.NewPointer(x.Type())} {
+				ms := c.Prog.MethodSets.MethodSet(t)
+				for i := 0; i < ms.Len(); i++ {
+					if f := c.Prog.MethodValue(ms.At(i)); f != nil && f.Pkg == fn.Pkg {
+						fns = append(fns, f)
+					}
+				}
+			}
+		}
+		for _, f := range fns {
+			withAnon(f, func(g *ssa.Function) {
+				allInstrs(g, func(i ssa.Instruction) {
+					if cv, ok := i.(*ssa.Call); ok && cv.Call.StaticCallee() == fn {
+						for _, seen := range out {
+							if seen == cv {
+								return
+							}
+						}
+						out = append(out, cv)
+						return
+					}
+					for _, op := range i.Operands(nil) {
+						if *op == ssa.Value(fn) {
+							if ci, ok := i.(ssa.CallInstruction); !ok || ci.Common().Value != ssa.Value(fn) {
+								closed = false
+							} else if _, isCall := i.(*ssa.Call); !isCall {
+								closed = false // go / defer
+							}
+						}
+					}
+				})
+			})
+		}
+	}
+	return out, closed
+}
+
+// tableLoopCoverageAt checks the table-loop shape with the parameters of fn read as the arguments of `site`
+// (site == nil: fn computes everything itself).
+func tableLoopCoverageAt(c *Ctx, e *BE, fn *ssa.Function, g *ssa.Call, q *ssa.Slice, size ssa.Value, site *ssa.Call) string {
+	arg := func(v ssa.Value) ssa.Value {
+		if p, ok := v.(*ssa.Parameter); ok && site != nil {
+			for i, fp := range fn.Params {
+				if fp == p && i < len(site.Call.Args) {
+					return site.Call.Args[i]
+				}
+			}
+		}
+		return v
+	}
+	sizeA := arg(size)
 	// N == len(table) * S
-	nb, ok := g.Call.Args[0].(*ssa.BinOp)
-	if !ok || nb.Op != token.MUL || !(nb.Y == size || nb.X == size) {
-		return "the grown size is not len(table) * entry size", true
+	nb, ok := arg(g.Call.Args[0]).(*ssa.BinOp)
+	if !ok || nb.Op != token.MUL || !(nb.Y == sizeA || nb.X == sizeA) {
+		return "the grown size is not len(table) * entry size"
+	}
+	lenOperand := nb.X
+	if nb.X == sizeA {
+		lenOperand = nb.Y
+	}
+	// the table whose length sized the region is the table the loop walks
+	var sizedTable ssa.Value
+	if lc, ok := lenOperand.(*ssa.Call); ok {
+		if b, ok := lc.Call.Value.(*ssa.Builtin); ok && b.Name() == "len" && len(lc.Call.Args) == 1 {
+			sizedTable = lc.Call.Args[0]
+		}
+	}
+	if site != nil {
+		// inside fn the loop ranges over one of its slice parameters: that parameter's argument must be the sized table
+		walked := false
+		for i, fp := range fn.Params {
+			if _, isSl := fp.Type().Underlying().(*types.Slice); isSl && !bytesLike(fp.Type()) && i < len(site.Call.Args) && site.Call.Args[i] == sizedTable {
+				walked = true
+			}
+		}
+		if sizedTable == nil || !walked {
+			return "the grown size is not len(table) * entry size of the table handed to the table writer"
+		}
 	}
 	switch off := q.Low.(type) {
 	case *ssa.Phi:
@@ -387,7 +493,7 @@ func tableLoopCoverage(c *Ctx, e *BE, fn *ssa.Function, g *ssa.Call, N Lin) (str
 			}
 		}
 		if !okInit || !okStep {
-			return "the entry offset does not advance from 0 by the entry size", true
+			return "the entry offset does not advance from 0 by the entry size"
 		}
 	case *ssa.BinOp:
 		// offset = index * S with the index visiting every entry of the table whose length sized the region
@@ -395,10 +501,10 @@ func tableLoopCoverage(c *Ctx, e *BE, fn *ssa.Function, g *ssa.Call, N Lin) (str
 		if off.X == size {
 			idx = off.Y
 		} else if off.Y != size {
-			return "the entry offset is not index * entry size", true
+			return "the entry offset is not index * entry size"
 		}
 		lenCall := nb.X
-		if nb.X == size {
+		if nb.X == sizeA {
 			lenCall = nb.Y
 		}
 		var table ssa.Value
@@ -408,15 +514,24 @@ func tableLoopCoverage(c *Ctx, e *BE, fn *ssa.Function, g *ssa.Call, N Lin) (str
 			}
 		}
 		if table == nil {
-			return "the grown size is not len(table) * entry size", true
+			return "the grown size is not len(table) * entry size"
+		}
+		if site != nil {
+			// inside fn the table is the parameter that received it
+			for i, fp := range fn.Params {
+				if i < len(site.Call.Args) && site.Call.Args[i] == table {
+					table = fp
+					break
+				}
+			}
 		}
 		if ok, why := loopPhiCoversAll(idx, table); !ok {
-			return "the entry index does not visit every table entry: " + why, true
+			return "the entry index does not visit every table entry: " + why
 		}
 	}
 	// every path through the loop body writes q fully: case split on the entry-size phi (big / small)
 	ivs := e.writesInto(fn, q)
-	sphi, isPhi := size.(*ssa.Phi)
+	sphi, isPhi := sizeA.(*ssa.Phi)
 	cases := []struct {
 		val  int64
 		cond ssa.Value
@@ -428,7 +543,7 @@ func tableLoopCoverage(c *Ctx, e *BE, fn *ssa.Function, g *ssa.Call, N Lin) (str
 		for k, ed := range sphi.Edges {
 			v, ok := constInt(ed)
 			if !ok || cond == nil {
-				return "entry size is not selected from constants by the big flag", true
+				return "entry size is not selected from constants by the big flag"
 			}
 			pred := sphi.Block().Preds[k]
 			tru := pred == idom.Succs[0] || (pred == idom && idom.Succs[0] == sphi.Block())
@@ -441,14 +556,14 @@ func tableLoopCoverage(c *Ctx, e *BE, fn *ssa.Function, g *ssa.Call, N Lin) (str
 				tru  bool
 			}{v, cond, tru})
 		}
-	} else if v, ok := constInt(size); ok {
+	} else if v, ok := constInt(sizeA); ok {
 		cases = append(cases, struct {
 			val  int64
 			cond ssa.Value
 			tru  bool
 		}{v, nil, true})
 	} else {
-		return "entry size of unrecognised form", true
+		return "entry size of unrecognised form"
 	}
 	for _, cs := range cases {
 		// writes executed under the branch consistent with this case
@@ -456,7 +571,7 @@ func tableLoopCoverage(c *Ctx, e *BE, fn *ssa.Function, g *ssa.Call, N Lin) (str
 		for _, iv := range ivs {
 			consistent := true
 			for _, cd := range pathConds(iv.at.Block()) {
-				if cs.cond != nil && cd.V == cs.cond && cd.Truth != cs.tru {
+				if cs.cond != nil && arg(cd.V) == cs.cond && cd.Truth != cs.tru {
 					consistent = false
 				}
 			}
@@ -465,10 +580,10 @@ func tableLoopCoverage(c *Ctx, e *BE, fn *ssa.Function, g *ssa.Call, N Lin) (str
 			}
 		}
 		if ok, reached := chainCovers(sel, linConst(cs.val)); !ok {
-			return fmt.Sprintf("table entries of %d bytes are only written up to byte %s: the rest of each entry keeps stale buffer content", cs.val, reached.String(e.name)), true
+			return fmt.Sprintf("table entries of %d bytes are only written up to byte %s: the rest of each entry keeps stale buffer content", cs.val, reached.String(e.name))
 		}
 	}
-	return "", true
+	return ""
 }
 
 func runR08_3(c *Ctx, r *R) {
@@ -509,9 +624,7 @@ func runR08_3(c *Ctx, r *R) {
 				}
 			}
 			if cv, ok := szt.Call.Args[1].(*ssa.Convert); ok {
-				if ex, ok := cv.X.(*ssa.Extract); ok && ex.Tuple == ssa.Value(tbl) && ex.Index == 0 {
-					tableOK = true
-				}
+				tableOK = carriesGrownSize(tbl, cv.X)
 			}
 			if dataOK && tableOK {
 				r.OK(key, f.Pos(), "table, data size (dataSize), table size (bytes of the table) + type")
@@ -543,4 +656,51 @@ func runR08_3(c *Ctx, r *R) {
 	} else {
 		r.Bad("internal/{encode,decode,format}/byte-order", 0, "non big-endian byte order used: %v", others)
 	}
+}
+
+// carriesGrownSize: v (in the caller of the table writer) is the number of bytes the table writer appends, i.e. the
+// argument of its single buffer.Grow: either the table writer returns that number and v is that result, or the
+// caller computed it and handed it to the table writer as the parameter that is grown.
+func carriesGrownSize(tbl *ssa.Call, v ssa.Value) bool {
+	callee := tbl.Call.StaticCallee()
+	if callee == nil || callee.Blocks == nil {
+		return false
+	}
+	var grown ssa.Value
+	n := 0
+	for _, call := range callsIn(callee, false) {
+		if isGrowCall(call) {
+			grown = call.Common().Args[0]
+			n++
+		}
+	}
+	if n != 1 {
+		return false
+	}
+	if p, ok := grown.(*ssa.Parameter); ok {
+		for i, fp := range callee.Params {
+			if fp == p && i < len(tbl.Call.Args) {
+				return tbl.Call.Args[i] == v
+			}
+		}
+		return false
+	}
+	ex, ok := v.(*ssa.Extract)
+	if !ok || ex.Tuple != ssa.Value(tbl) {
+		return false
+	}
+	any := false
+	for _, ret := range returnsOf(callee) {
+		if ex.Index >= len(ret.Results) {
+			return false
+		}
+		if last := ret.Results[len(ret.Results)-1]; types.Identical(last.Type(), types.Universe.Lookup("error").Type()) && !isNilConst(last) {
+			continue // error return: nothing delivered
+		}
+		if unspill(ret.Results[ex.Index]) != grown {
+			return false
+		}
+		any = true
+	}
+	return any
 }
